@@ -46,6 +46,13 @@ func c08Workspaces() []c08ws {
 			"b.proto": hdr + "message B { optional Nope x = 1; }\n",
 			"c.proto": "package p;\nimport \"a.proto\";\nmessage C { optional int32 x = 1; }\n",
 		}, []string{"a.proto", "b.proto", "c.proto"}, 1},
+		// the resolver's own descriptor.proto has an error; the requested files are fine and do not
+		// import it (it is compiled implicitly and its failure is not theirs)
+		{"error-in-implicit-descriptor", fileSet{
+			"a.proto":                          hdr + "message A { optional int32 x = 1; }\n",
+			"b.proto":                          hdr + "import \"a.proto\";\nmessage B { optional A a = 1; }\n",
+			"google/protobuf/descriptor.proto": minimalDescriptorProto + "message Broken { optional Nope n = 1; }\n",
+		}, []string{"b.proto"}, 1},
 		{"roots-with-errors", fileSet{
 			"a.proto": hdr + "message A { optional Nope x = 1; }\n",
 			"b.proto": hdr + "message B { optional Nope y = 1; }\n",
@@ -55,7 +62,7 @@ func c08Workspaces() []c08ws {
 }
 
 func runC08(h *hx.H) {
-	h.Rule = "error-bearing workspaces x reporter aborting at the k-th error (k=1..e+1) or never x MaxParallelism 1..2 x all schedules within the preemption bound, with a scheduling point inside every reporter callback; monitor automaton on the callbacks"
+	h.Rule = "error-bearing workspaces (incl. an error in a descriptor.proto that the resolver supplies and nothing imports) x reporter aborting at the k-th error (k=1..e+1) or never x MaxParallelism 1..2 x all schedules within the preemption bound, with a scheduling point inside every reporter callback; monitor automaton on the callbacks"
 	pb := 2
 	if h.Thorough() {
 		pb = 3
